@@ -433,12 +433,26 @@ def uncg_case(ctx, rng, c, cgsys):
     traj = RDTrajectory(data=UnitArray(data, cgsys.state.units), t_sample=UnitArray(ts, "s"), system=cgsys)
     fine = build(c)
     case = {"sys": case_json(c), "uncg": {"N": N, "data": data}}
+    before = np.array(traj.data.value, dtype=float).tobytes()
     try:
         out = uncoarsegrain_trajectory(traj, fine, im)
         vals = [float(v) for v in np.asarray(out.data.value).ravel()]
+        # the coarse trajectory is an input: it must come back bit-unchanged, and a second call must give the same result
+        after = np.array(traj.data.value, dtype=float).tobytes()
+        out2 = uncoarsegrain_trajectory(traj, fine, im)
+        vals2 = [float(v) for v in np.asarray(out2.data.value).ravel()]
     except Exception as e:  # noqa
         ctx.violation("uncg:raises", "uncoarsegrain_trajectory raised %r on a valid map" % (e,), case, impl=repr(e))
         return None, None
+    ctx.count("uncoarsegrain_called_twice")
+    if after != before:
+        ctx.violation("uncg:modifies-input", "uncoarsegrain_trajectory modified the coarse trajectory it was given (data %s -> %s)" % (
+            data[:6], [float(v) for v in np.asarray(traj.data.value).ravel()][:6]), case,
+            impl=[float(v) for v in np.asarray(traj.data.value).ravel()][:24], expected=data[:24])
+    if vals2 != vals:
+        k = next((i for i, (x, y) in enumerate(zip(vals, vals2)) if x != y), None)
+        ctx.violation("uncg:second-call", "a second un-coarse-graining of the same coarse trajectory differs from the first (entry %s: %r then %r)" % (
+            k, vals[k] if k is not None else None, vals2[k] if k is not None else None), case, impl=vals2[:24], expected=vals[:24])
     members = [[i for i in range(n) if im[i] == g] for g in range(ng)]
     ctx.case(("uncg", tuple(c["shape"]), tuple(im), N, ns), nontrivial=any(len(m) > 1 for m in members) or -1 in im)
     ctx.count("uncoarsegrain")
@@ -499,9 +513,11 @@ def identity_runs(ctx, rng, count):
     engines enumerate neighbours in different orders, so equal seeds do not mean equal draws: there the first sample, the shape,
     integrality and the conserved total A+B are compared (the exact statement 'identical for equal draws' is the theorem side)."""
     from strengths import simulate, rdsystem_from_dict
-    plan = [("euler", True), ("tauleap", False), ("gillespie", False), ("euler", True), ("tauleap", True), ("gillespie", True)]
+    plan = [("euler", True, "on_t_sample"), ("tauleap", False, "on_t_sample"), ("gillespie", False, "on_t_sample"),
+            ("euler", True, "on_iteration"), ("tauleap", True, "on_t_sample"), ("gillespie", True, "on_t_sample"),
+            ("tauleap", False, "on_iteration"), ("euler", True, "on_t_sample")]
     for k in range(count):
-        option, diffuse = plan[k % len(plan)]
+        option, diffuse, policy = plan[k % len(plan)]
         shape = gen_grid(rng)
         while shape[0] * shape[1] * shape[2] > 12:
             shape = gen_grid(rng)
@@ -526,12 +542,18 @@ def identity_runs(ctx, rng, count):
                 chem = [0] * (2 * n)
                 chem[rng.randrange(2 * n)] = 1
         system.chemostats = list(chem)
-        ts = [0.0, 0.125, 0.25, 0.5]
+        ts, dt = [0.0, 0.125, 0.25, 0.5], 1 / 64
+        if policy == "on_iteration":
+            # every iteration is recorded; dyadic time step and t_max an exact multiple of it, so that t hits t_max exactly
+            dt = rng.choice([0.125, 0.25])
+            ts = [0.0, dt * rng.randint(2, 6)]
         seed = rng.randint(1, 10 ** 6)
-        case = {"identity": {"system": d, "chem": chem, "option": option, "t_sample": ts, "seed": seed, "time_step": 1 / 64, "diffuse": diffuse}}
+        case = {"identity": {"system": d, "chem": chem, "option": option, "t_sample": ts, "seed": seed, "time_step": dt, "diffuse": diffuse,
+                             "policy": policy}}
         ctx.count("identity_with_chemostats" if any(chem) else "identity_without_chemostats")
-        ok, detail = identity_compare(system, option, ts, seed, 1 / 64, diffuse)
-        ctx.case(("identity", option, diffuse, shape, tuple(envs), seed), nontrivial=n > 1)
+        ctx.count("identity_policy_" + policy)
+        ok, detail = identity_compare(system, option, ts, seed, dt, diffuse, policy)
+        ctx.case(("identity", option, diffuse, policy, shape, tuple(envs), seed), nontrivial=n > 1)
         ctx.count("identity_%s_%s" % (option, "diffusion" if diffuse else "reaction_only"))
         if not ok:
             ctx.violation("identity:%s" % option, "simulate(cgmap=identity) does not reproduce the plain simulation (%s engine%s): %s" % (
@@ -558,25 +580,28 @@ def unsafe_graph(system, im):
     return None
 
 
-def identity_compare(system, option, ts, seed, dt, diffuse):
+def identity_compare(system, option, ts, seed, dt, diffuse, policy="on_t_sample"):
     from strengths import simulate
     n = system.space.size()
     why = unsafe_graph(system, list(range(n)))
     if why:
         return False, {"why": "identity coarse-graining is not a usable graph: " + why}
     try:
-        plain = simulate(system, t_sample=ts, engine=common.load_engine(option), time_step=dt, rng_seed=seed)
-        cgd = simulate(system, t_sample=ts, engine=common.load_engine(option), time_step=dt, rng_seed=seed, cgmap=list(range(n)))
+        plain = simulate(system, t_sample=ts, engine=common.load_engine(option), time_step=dt, rng_seed=seed, sampling_policy=policy)
+        cgd = simulate(system, t_sample=ts, engine=common.load_engine(option), time_step=dt, rng_seed=seed, sampling_policy=policy,
+                       cgmap=list(range(n)))
     except Exception as e:  # noqa
         return False, {"why": "raised %r" % (e,)}
     a = [float(v) for v in np.asarray(plain.data.value).ravel()]
     b = [float(v) for v in np.asarray(cgd.data.value).ravel()]
-    det = {"plain": a[:24], "cgmap_identity": b[:24]}
+    det = {"plain": a[:24], "cgmap_identity": b[:24], "plain_times": [float(x) for x in plain.t.value][:12],
+           "cgmap_identity_times": [float(x) for x in cgd.t.value][:12]}
     same_t = [float(x) for x in plain.t.value] == [float(x) for x in cgd.t.value]
     if option != "euler" and diffuse:      # recorded times are event times of the stochastic run
         same_t = len(plain.t.value) == len(cgd.t.value)
     if len(a) != len(b) or str(plain.data.units) != str(cgd.data.units) or not same_t:
-        det["why"] = "shape / units / times differ"
+        det["why"] = "shape / units / times differ: %d samples at %s versus %d samples at %s" % (
+            len(plain.t.value), det["plain_times"][-3:], len(cgd.t.value), det["cgmap_identity_times"][-3:])
         return False, det
     mag = sum(abs(x) for x in a[:2 * n]) or 1.0
     if option == "euler":
@@ -586,7 +611,7 @@ def identity_compare(system, option, ts, seed, dt, diffuse):
     else:
         bad = [i for i in range(2 * n) if a[i] != b[i]]                      # first sample
         bad += [i for i, y in enumerate(b) if y != int(y) or y < 0]          # molecule counts
-        for k in range(len(ts)):                                             # A + B is conserved by A <-> B and by diffusion
+        for k in range(len(a) // (2 * n)):                                   # A + B is conserved by A <-> B and by diffusion
             ta, tb = sum(a[k * 2 * n:(k + 1) * 2 * n]), sum(b[k * 2 * n:(k + 1) * 2 * n])
             if ta != tb:
                 bad.append("total of sample %d: %r vs %r" % (k, tb, ta))
@@ -688,8 +713,8 @@ def run(ctx):
                      "fine_edges_are_shared_faces, uncg_even / uncg_dropped_zero / uncg_group_total, identity_map, identity_state, generated "
                      "subscripts / tests / statement inventory.  'simulating with the identity map reproduces the plain simulation' rests on "
                      "identity_map + C15 (grid = its graph) on the theorem side and is run on the three rebuilt engines here")
-    n_valid = ctx.n(340, 8000)
-    n_invalid = ctx.n(120, 2500)
+    n_valid = ctx.n(280, 8000)
+    n_invalid = ctx.n(100, 2500)
     cases = [gen_case(rng) for _ in range(n_valid)] + [gen_case(rng, invalid=True) for _ in range(n_invalid)] + \
             [gen_case(rng, periodic=True) for _ in range(ctx.n(6, 100))]
     # the seeded / documented example: dropping cells of two environments
@@ -791,7 +816,7 @@ def run(ctx):
             break
     # ---- identity map and cgmap structure on the real engines, in a child process (a coarse system produced by a defective
     #      tree can make the native engine hang or crash; that must not take the check down)
-    engine_runs_in_child(ctx, rng.randint(0, 10 ** 9), ctx.n(12, 60), ctx.n(8, 60), ctx.n(45, 900))
+    engine_runs_in_child(ctx, rng.randint(0, 10 ** 9), ctx.n(16, 64), ctx.n(8, 60), ctx.n(45, 900))
 
 
 class _Rec:
@@ -847,7 +872,8 @@ def replay(ctx, rec):
         system = rdsystem_from_dict(d["system"])
         if d.get("chem"):
             system.chemostats = list(d["chem"])
-        ok, det = identity_compare(system, d["option"], d["t_sample"], d["seed"], d["time_step"], d.get("diffuse", True))
+        ok, det = identity_compare(system, d["option"], d["t_sample"], d["seed"], d["time_step"], d.get("diffuse", True),
+                                   d.get("policy", "on_t_sample"))
         return ok, det
     c = dict(case["sys"])
     c["h"] = Fraction(c["h"])
@@ -906,8 +932,16 @@ def uncg_replay(v, c, cgsys, u):
     ng = max(im) + 1
     N, data = u["N"], u["data"]
     traj = RDTrajectory(data=UnitArray(data, cgsys.state.units), t_sample=UnitArray([float(k) for k in range(N)], "s"), system=cgsys)
+    before = np.array(traj.data.value, dtype=float).tobytes()
     out = uncoarsegrain_trajectory(traj, build(c), im)
     vals = [float(x) for x in np.asarray(out.data.value).ravel()]
+    if np.array(traj.data.value, dtype=float).tobytes() != before:
+        v.violation("uncg:modifies-input", "the coarse trajectory was modified: %s -> %s" % (data[:6], [float(x) for x in np.asarray(traj.data.value).ravel()][:6]), {})
+        return
+    vals2 = [float(x) for x in np.asarray(uncoarsegrain_trajectory(traj, build(c), im).data.value).ravel()]
+    if vals2 != vals:
+        v.violation("uncg:second-call", "a second call on the same coarse trajectory gives another result", {})
+        return
     members = [[i for i in range(n) if im[i] == g] for g in range(ng)]
     for k in range(N):
         for s in range(ns):
